@@ -344,3 +344,71 @@ func RunesToString(rs []int) string {
 	}
 	return sb.String()
 }
+
+// PathElems are the path elements of the Filenames-mode enumeration: star runs of length 1..4 alone and glued to text,
+// dot names, a wildcard.
+var PathElems = []string{"*", "**", "***", "****", "a", "a*", "*a", "a**", "**a", "a***", "***a", ".a", ".*", "?", "b"}
+
+// NumPaths(l) = number of path patterns with l elements (x 4 for optional leading / trailing slash).
+func NumPaths(l int) int {
+	n := 4
+	for i := 0; i < l; i++ {
+		n *= len(PathElems)
+	}
+	return n
+}
+
+// PathPattern returns the idx-th path pattern with l elements.
+func PathPattern(l, idx int) string {
+	lead := []string{"", "/"}[idx%2]
+	idx /= 2
+	trail := []string{"", "/"}[idx%2]
+	idx /= 2
+	el := make([]string, l)
+	for i := 0; i < l; i++ {
+		el[i] = PathElems[idx%len(PathElems)]
+		idx /= len(PathElems)
+	}
+	return lead + strings.Join(el, "/") + trail
+}
+
+// PathStrings: every path of up to 3 components over the names a .a b ab, with optional leading and trailing slash.
+func PathStrings() []string {
+	names := []string{"a", ".a", "b", "ab"}
+	var out []string
+	var rec func(prefix string, depth int)
+	rec = func(prefix string, depth int) {
+		for _, n := range names {
+			p := prefix + n
+			out = append(out, p, p+"/", "/"+p, "/"+p+"/")
+			if depth < 3 {
+				rec(p+"/", depth+1)
+			}
+		}
+	}
+	rec("", 1)
+	return append(out, "", "/")
+}
+
+// CollapseStarRuns replaces every run of three or more stars by a single star (bash: only an exact ** is globstar).
+func CollapseStarRuns(p string) string {
+	var sb strings.Builder
+	for i := 0; i < len(p); {
+		if p[i] != '*' {
+			sb.WriteByte(p[i])
+			i++
+			continue
+		}
+		j := i
+		for j < len(p) && p[j] == '*' {
+			j++
+		}
+		if j-i >= 3 {
+			sb.WriteByte('*')
+		} else {
+			sb.WriteString(p[i:j])
+		}
+		i = j
+	}
+	return sb.String()
+}
